@@ -510,6 +510,10 @@ def run(ctx: Ctx):
     for ci in range(ctx.scale(12, 300)):
         text, opts, feats = c04.gen_case(rng, ["ALA", "THR", "MET", "LYS", "VAL", "LEU", "ILE"][ci % 7], kind="partial-h", offslot=True)
         check_case(ctx, drv, text, opts, feats, seen_sig)
+    # a missing backbone atom (carbonyl O / amide N) inside a chain: rebuilt on atoms of the neighbouring residue
+    for ci in range(ctx.scale(10, 200)):
+        text, opts, feats = c04.gen_case(rng, None, kind="missing", backbone=True)
+        check_case(ctx, drv, text, opts[:1] + (["--nodebump"] if ci % 3 == 0 else []), feats, seen_sig)
     n = ctx.scale(60, 2500)
     for ci in range(n):
         force = G.AA3[ci % len(G.AA3)] if ci % 2 == 0 else None
